@@ -38,7 +38,7 @@ def plan(tier, seed):
     for n, reps, k in ((2, 4, 1), (3, 4, 1), (4, 3, 2), (5, 2 if q else 10, 8), (6, 1 if q else 8, 48)):
         t += wp.member_tasks(n, reps, k, seed)
     for (n, c) in oconn.CONFIGS:
-        t.append(("compress", n, c, 30 if q else 300, seed))
+        t.append(("compress", n, c, 56 if q else 420, seed))
         t.append(("mub", n, c))
     t.append(("graphs",))
     rnd = random.Random(seed)
@@ -102,8 +102,8 @@ def work_compress(task, p):
     _, n, conn, count, seed = task
     rnd = random.Random("%s-%s-%s" % (n, conn, seed))
     for i in range(count):
-        mix = ("uniform", "two", "swapchain", "redundant", "subset")[i % 5]
-        g = ws.random_gates(n, rnd.choice([3, 8, 20, 60]), rnd, mix)
+        mix = ("uniform", "two", "swapchain", "redundant", "subset", "cheap", "cheap")[i % 7]
+        g = ws.cheap_uncoupled(n, rnd) if mix == "cheap" else ws.random_gates(n, rnd.choice([3, 8, 20, 60]), rnd, mix)
         ok, qc = call(compress_preparation_circuit, ws.qiskit_circuit(g, n), conn)
         cj = {"kind": "compress", "n": n, "conn": conn, "gates": [[nm, list(qs)] for nm, qs in g]}
         if ok:
